@@ -17,6 +17,7 @@ import (
 	"io"
 	"os"
 	"os/exec"
+	"time"
 
 	q "lcverif/coqfmt"
 	"lcverif/rng"
@@ -54,6 +55,8 @@ type preObs struct {
 	Note    string `json:"note,omitempty"`
 	Exit    int    `json:"exit"`
 	Skipped string `json:"skipped,omitempty"`
+	// > 1: reference run and run under test were repeated after a clock tick (compressed length)
+	Attempts int `json:"attempts,omitempty"`
 }
 
 var methodFlag = []string{"none", "gzip", "bzip2", "xz"}
@@ -222,16 +225,23 @@ func runPre(tmp, root string, args []string, lines []string, plain []byte, specs
 		}
 		// the reference: the same run to a path that does not exist
 		fresh := plain
-		if p.Method != 0 {
+		freshRun := func() bool {
+			if p.Method == 0 {
+				return true
+			}
 			fp := pathFor("fresh", p.Method)
 			os.Remove(fp)
 			if rc, _ := runStagemaker(tmp, outArgs(p.Method, fp), nil); rc != 0 {
 				ob.Skipped = fmt.Sprintf("reference run exit %d", rc)
-				desc = append(desc, ob)
-				continue
+				return false
 			}
 			fresh, _ = os.ReadFile(fp)
 			os.Remove(fp)
+			return true
+		}
+		if !freshRun() {
+			desc = append(desc, ob)
+			continue
 		}
 		ob.FreshLen = len(fresh)
 		// the path and what it holds
@@ -269,20 +279,50 @@ func runPre(tmp, root string, args []string, lines []string, plain []byte, specs
 			}
 			must(os.WriteFile(path, fillBytes(p.Kind, p.Seed, n), 0644))
 		}
-		if st, err := os.Stat(path); err == nil {
-			ob.Existed, ob.PriorLen = true, int(st.Size())
+		var priorBytes []byte
+		if b, err := os.ReadFile(path); err == nil {
+			ob.Existed, ob.PriorLen, priorBytes = true, len(b), b
 		}
-		// the run under test
-		ob.Exit, _ = runStagemaker(tmp, outArgs(p.Method, path), nil)
-		if ob.Exit != 0 {
-			// the fresh-path run succeeded: a failure here depends on what the path held
-			ob.Note += " exit status differs from the fresh-path run"
+		note0 := ob.Note
+		for attempt := 0; ; attempt++ {
+			if attempt > 0 {
+				// The length of COMPRESSED output is a function of the archive bytes, and members that
+				// stagemaker synthesises carry the clock of their run: the reference run and the run
+				// under test can differ in length when a second ticks between them (seen: gzip 5600 vs
+				// 5584).  Then both are repeated right after a tick, from the same previous content.
+				now := time.Now()
+				time.Sleep(now.Truncate(time.Second).Add(time.Second + 5*time.Millisecond).Sub(now))
+				if !freshRun() {
+					break
+				}
+				ob.FreshLen = len(fresh)
+				if ob.Existed {
+					must(os.WriteFile(path, priorBytes, 0644))
+				} else {
+					os.Remove(path)
+				}
+			}
+			// the run under test
+			ob.Attempts = attempt + 1
+			ob.Exit, _ = runStagemaker(tmp, outArgs(p.Method, path), nil)
+			ob.Note = note0
+			if ob.Exit != 0 {
+				// the fresh-path run succeeded: a failure here depends on what the path held
+				ob.Note += " exit status differs from the fresh-path run"
+			}
+			var data []byte
+			data, ob.Whole, ob.Same, ob.Rest, ob.Note = inspectOutputNote(p.Method, path, plain, root, ob.Note)
+			ob.Len = len(data)
+			if ob.Exit != 0 {
+				ob.Whole, ob.Same = false, false
+			}
+			if p.Method == 0 || !ob.Whole || ob.Len == ob.FreshLen || attempt >= 3 {
+				break
+			}
 		}
-		var data []byte
-		data, ob.Whole, ob.Same, ob.Rest, ob.Note = inspectOutputNote(p.Method, path, plain, root, ob.Note)
-		ob.Len = len(data)
-		if ob.Exit != 0 {
-			ob.Whole, ob.Same = false, false
+		if ob.Skipped != "" {
+			desc = append(desc, ob)
+			continue
 		}
 		if p.Method != 0 && !ob.Whole && ob.Len > ob.FreshLen {
 			ob.Rest = ob.Len - ob.FreshLen
